@@ -51,9 +51,8 @@ fn mk_local<'l>(q: &'l WorkStealQueue<It>, idx: usize, tick: u32) -> LocalQueue<
 
 // the shared pop as a callee contract (proved on the real code in p_shared_push_pop)
 static mut STUB_SHARED: Option<It> = None;
-static mut SHARED_CALLS: usize = 0;
-static mut SHARED_FIRST: bool = false; // the shared queue was consulted before the local worker was touched
-static mut LOCAL_LEN_AT_SHARED_CALL: usize = 0;
+static mut SHARED_CALLS: usize = 0x7321; // distinct non-zero initialisers, assigned before use (tool note in harness/C16/model.rs)
+static mut LOCAL_LEN_AT_SHARED_CALL: usize = 0x7322;
 static mut LOCAL_PTR: *const Worker<It> = std::ptr::null();
 mod mirror {
     use super::{It, STUB_SHARED, SHARED_CALLS, LOCAL_PTR, LOCAL_LEN_AT_SHARED_CALL};
